@@ -148,7 +148,7 @@ M = [
                         broadcast = False
                         retries -= 1""", """                        full = False
                         broadcast = False
-                        retries -= (0 if self.backoff > 0.2 else 1)"""),
+                        retries -= (0 if (self.backoff and self.backoff < 0.05) else 1)"""),
  ('c13_invalid_message_not_caught', 'C13', 'pymodbus/transaction.py',
   """        except (socket.error, ModbusIOException,
                 InvalidMessageReceivedException) as msg:""", """        except (socket.error, ModbusIOException) as msg:"""),
@@ -240,6 +240,12 @@ M = [
             self.server.active_connections = {}
         elif self.client_address in self.server.active_connections:
             self.server.active_connections.pop(self.client_address)
+"""),
+ ('c13_failed_transaction_returns_none', 'C13', 'pymodbus/transaction.py',
+  """                            response = self.getTransaction(tid=0)
+                        if not response:
+""", """                            response = self.getTransaction(tid=0)
+                        else:
 """),
 ]
 
